@@ -304,3 +304,147 @@ def install_structure(reg):
                2: LoopContract("for s in sets", conv_inv)},
         note="bookkeeping of the exact filtering (which candidate is tested, pairing and order of seeds and sets, conversion, shortcut); the "
              "meaning of the result (call-site contract) stays assumed"))
+
+
+def install_fallback_structure(reg):
+    """Second contract of symbolic_attractor_fallback (`#structure`): WHICH set of states is handed to AEON's attractor search - the node's
+    states minus its successors, minus (for a skip node) the regions shared with non-ancestor nodes whose cached candidates or seeds are the
+    empty list (the exclusion rule as written; known finding D12 is about this rule), reduced, minus the backward closure of the successors
+    unless the node is minimal or nothing is left - and that seeds and sets are reported pairwise, one per attractor, in AEON's order.
+    What the result MEANS stays with the assumed call-site contract."""
+    from pyvc.contract import HeapParam
+    from pyvc import sdmodel as M
+    from .attractors import structure_unchanged, RES2b
+    from . import sd_inv as S
+    SD_ = HeapParam("SD")
+    LS, LV, LI = M.LS, M.LV, M.LI
+    OptLS = M.OptLS
+    LCV = V.LCVS
+    LN = TList(TName)
+    k_ = z3.Int("k!fb")
+
+    def sp(v, n):
+        return v.space[n]
+
+    def region(v, s):
+        return V.SubspaceSet(v.sym, s)
+
+    FoldA = z3.Function("fb_minus_children", V.G, V.VS, z3.ArraySort(I, T.SpaceS), LI.sort(), I, V.VS)      # (graph, start, spaces, child list, k)
+    FoldB = z3.Function("fb_minus_skip_regions", V.G, V.VS, T.SpaceS, z3.ArraySort(I, T.SpaceS), M.TArr(OptLS).sort(), M.TArr(OptLS).sort(), I, V.VS)
+    FoldU = z3.Function("fb_union_children", V.G, z3.ArraySort(I, T.SpaceS), LI.sort(), I, V.VS)
+    g_, s0_, spc_, l_, n_ = z3.Const("g!fb", V.G), z3.Const("s!fb", V.VS), z3.Const("sp!fb", z3.ArraySort(I, T.SpaceS)), z3.Const("l!fb", LI.sort()), z3.Int("n!fb")
+    ns_, ca_, se_ = z3.Const("ns!fb", T.SpaceS), z3.Const("ca!fb", M.TArr(OptLS).sort()), z3.Const("se!fb", M.TArr(OptLS).sort())
+
+    def excluded(ns, spc, ca, se, n):
+        """node n makes the skip node drop their common region: n is not an ancestor-or-self (node space not inside n's space), one of n's
+        cached lists is the EMPTY list, and the two spaces are consistent"""
+        kq = z3.Const("k!fbc", Name)
+        consistent = z3.Not(z3.Exists([kq], z3.And(ns[kq] >= 0, spc[n][kq] >= 0, ns[kq] != spc[n][kq])))
+        empty = lambda x: z3.And(z3.Not(OptLS.is_none(x)), LS.len(OptLS.val(x)) == 0)        # `x == []`: a list (not None) without elements
+        return z3.And(z3.Not(T.subspace(ns, spc[n])), z3.Or(empty(ca[n]), empty(se[n])), consistent)
+
+    AX = [
+        z3.ForAll([g_, s0_, spc_, l_], FoldA(g_, s0_, spc_, l_, 0) == s0_, patterns=[FoldA(g_, s0_, spc_, l_, 0)]),
+        z3.ForAll([g_, s0_, spc_, l_, n_], z3.Implies(n_ >= 0, FoldA(g_, s0_, spc_, l_, n_ + 1) ==
+                                                     V.Mi(FoldA(g_, s0_, spc_, l_, n_), V.SubspaceSet(g_, spc_[LI.at(l_)[n_]]))),
+                  patterns=[FoldA(g_, s0_, spc_, l_, n_ + 1)]),
+        z3.ForAll([g_, s0_, ns_, spc_, ca_, se_], FoldB(g_, s0_, ns_, spc_, ca_, se_, 0) == s0_, patterns=[FoldB(g_, s0_, ns_, spc_, ca_, se_, 0)]),
+        z3.ForAll([g_, s0_, ns_, spc_, ca_, se_, n_], z3.Implies(n_ >= 0, FoldB(g_, s0_, ns_, spc_, ca_, se_, n_ + 1) == z3.If(
+            excluded(ns_, spc_, ca_, se_, n_),
+            V.Mi(FoldB(g_, s0_, ns_, spc_, ca_, se_, n_), V.SubspaceSet(g_, T.union(ns_, spc_[n_]))),
+            FoldB(g_, s0_, ns_, spc_, ca_, se_, n_))), patterns=[FoldB(g_, s0_, ns_, spc_, ca_, se_, n_ + 1)]),
+        z3.ForAll([g_, spc_, l_], FoldU(g_, spc_, l_, 0) == V.EmptyVS, patterns=[FoldU(g_, spc_, l_, 0)]),
+        z3.ForAll([g_, spc_, l_, n_], z3.Implies(n_ >= 0, FoldU(g_, spc_, l_, n_ + 1) == V.Un(FoldU(g_, spc_, l_, n_), V.SubspaceSet(g_, spc_[LI.at(l_)[n_]]))),
+                  patterns=[FoldU(g_, spc_, l_, n_ + 1)]),
+    ]
+
+    def lem_ext(c):
+        """array extensionality, instantiated for the common subspace of the node and node c.i: a space is ns | space[i] or differs from
+        it at some key (valid in the theory of arrays; a hint for the solver, not an assumption)"""
+        rq, kq = z3.Const("r!fbx", T.SpaceS), z3.Const("k!fbx", Name)
+        o = O(c)
+        u = T.union(sp(o, c.node_id), o.space[c.i])
+        return z3.ForAll([rq], z3.Or(rq == u, z3.Exists([kq], rq[kq] != u[kq])), patterns=[V.SubspaceSet(o.sym, rq)])
+
+    def O(c):
+        return c.old.sd if c.old is not None else c.sd
+
+    def start_set(c):
+        return region(O(c), sp(O(c), c.node_id))
+
+    def after_children(c, lst, k):
+        return FoldA(O(c).sym, start_set(c), O(c).space, lst, k)
+
+    def after_skip(c, base, k):
+        o = O(c)
+        return FoldB(o.sym, base, sp(o, c.node_id), o.space, o.cand, o.seeds, k)
+
+    def frame(c):
+        return structure_unchanged(c.sd, c.old.sd)
+
+    def search_space(c):
+        """the set handed to xie_beerel, built up stage by stage exactly as described in the docstring above"""
+        o, n = c.old.sd, c.node_id
+        g = o.sym
+        cl = []
+        A = region(o, sp(o, n))
+        if c.passed_loop(0):
+            l0 = c.outer(0)["coll"]
+            cl.append(o.expanded[n])
+            A = FoldA(g, A, o.space, l0, LI.len(l0))
+        else:
+            cl.append(z3.Not(o.expanded[n]))
+        Bv = A
+        if c.passed_loop(1):
+            cl.append(o.skipped[n])
+            Bv = FoldB(g, A, sp(o, n), o.space, o.cand, o.seeds, o.K)
+        else:
+            cl.append(z3.Not(o.skipped[n]))
+        R = V.TGR(g, Bv, c.local("internal_nfvs"))
+        minimal = z3.And(o.expanded[n], z3.Not(z3.Exists([k_], z3.And(0 <= k_, k_ < o.K, o.edge[n][k_]))))
+        if c.has_local("avoid"):
+            U = V.EmptyVS
+            if c.passed_loop(2):
+                l2 = c.outer(2)["coll"]
+                U = FoldU(g, o.space, l2, LI.len(l2))
+            cl += [z3.Not(minimal), z3.Not(V.Emp(R)),
+                   c.local("candidates") == V.Mi(R, V.ReachBwd(g, U))]
+        else:
+            cl += [z3.Or(minimal, V.Emp(R)), c.local("candidates") == R]
+        cl.append(c.local("attractors") == V.XieBeerel(g, c.local("candidates")))
+        return z3.And(cl)
+
+    reg.add(Contract(
+        "biobalm._sd_attractors.attractor_symbolic.symbolic_attractor_fallback#structure",
+        params=[("sd", SD_), ("node_id", TInt)], result_type=RES2b, properties=("C12", "C05"),
+        requires=[lambda c: S.inv_all(c.sd), lambda c: S.valid(c.sd, c.node_id), lambda c: c.sd.cfg_max_motifs_per_node >= 0],
+        modifies={"sd": ["pbn", "pnfvs"]},
+        ensures=[("one_seed_and_one_set_per_attractor_in_order", lambda c: z3.And(
+            LS.len(RES2b.get(c.result, 0)) == LCV.len(c.local("attractors")), LV.len(RES2b.get(c.result, 1)) == LCV.len(c.local("attractors")),
+            z3.ForAll([k_], z3.Implies(z3.And(0 <= k_, k_ < LCV.len(c.local("attractors"))),
+                                       LV.at(RES2b.get(c.result, 1))[k_] == V.vertices_of(LCV.at(c.local("attractors"))[k_]))))),
+                 ("search_space_is_the_reduced_remainder", lambda c: search_space(c)),
+                 ("only_percolation_caches_filled", lambda c: frame(c)), ("inv", lambda c: S.inv_all(c.sd))],
+        axioms=V.AX_VS + AX,
+        local_types={"candidates": V.TVS, "avoid": V.TVS, "attractors": LCV, "result_seeds": LS, "result_sets": LV, "internal_nfvs": LN,
+                     "node_space": TSpace, "attr_seed_named": TSpace},
+        loops={
+            0: LoopContract("for s in sd.node_successors(node_id, compute=False)", lambda c: [
+                ("children_removed_so_far", c.candidates == after_children(c, c.coll, c.i)), ("frame", frame(c)), ("inv", S.inv_all(c.sd)),
+                ("node_space", c.node_space == sp(O(c), c.node_id))]),
+            1: LoopContract("for n in sd.node_ids()", lambda c: [
+                ("skip_regions_removed_so_far_by_the_rule_as_written", c.candidates == after_skip(c, c.entry_local(1, "candidates"), c.i)),
+                ("frame", frame(c)), ("inv", S.inv_all(c.sd)), ("node_space", c.node_space == sp(O(c), c.node_id)), ("index", c.i >= 0)],
+                lemmas=[("def.array_extensionality", lem_ext)]),
+            2: LoopContract("for s in sd.node_successors(node_id)", lambda c: [
+                ("union_of_the_children_so_far", c.avoid == FoldU(O(c).sym, O(c).space, c.coll, c.i)), ("frame", frame(c)), ("inv", S.inv_all(c.sd))]),
+            3: LoopContract("for attr in attractors", lambda c: [
+                ("paired_so_far", z3.And(LS.len(c.result_seeds) == c.i, LV.len(c.result_sets) == c.i, c.coll == c.attractors,
+                                         z3.ForAll([k_], z3.Implies(z3.And(0 <= k_, k_ < c.i), LV.at(c.result_sets)[k_] == V.vertices_of(LCV.at(c.attractors)[k_]))))),
+                ("frame", frame(c)), ("inv", S.inv_all(c.sd))]),
+        },
+        trusted_fragments=[{"name": "pick one state of the attractor and name its variables", "first": "attr_seed = next(attr_vertices.items()).to_dict()",
+                            "last": "attr_seed_named = {sd.network.get_variable_name(k): v for k, v in attr_seed.items()}", "sha256": None,
+                            "assigns": {"attr_seed_named": TSpace}, "ensures": lambda c: [T.wf_space(c.attr_seed_named)]}],
+        note="the exclusion rule of the skip-node branch is pinned exactly as written (an empty cached list, not merely a falsy one); its soundness "
+             "is the known finding D12, not claimed here"))
